@@ -3,6 +3,7 @@ package lsp
 import (
 	"encoding/json"
 	"fmt"
+	"strings"
 
 	"github.com/formancehq/numscript/internal/analysis"
 	"github.com/formancehq/numscript/internal/parser"
@@ -30,7 +31,9 @@ func (state *State) updateDocument(uri DocumentURI, text string) {
 
 	var diagnostics []Diagnostic = make([]Diagnostic, 0)
 	for _, diagnostic := range checkResult.Diagnostics {
-		diagnostics = append(diagnostics, toLspDiagnostic(diagnostic))
+		lspDiagnostic := toLspDiagnostic(diagnostic)
+		lspDiagnostic.Range = toLspRangeIn(text, diagnostic.Range)
+		diagnostics = append(diagnostics, lspDiagnostic)
 	}
 
 	SendNotification("textDocument/publishDiagnostics", PublishDiagnosticsParams{
@@ -52,6 +55,7 @@ func (state *State) handleHover(params HoverParams) *Hover {
 	if !ok {
 		return nil
 	}
+	position = charactersPosition(doc.Text, position)
 
 	hoverable := analysis.HoverOn(doc.CheckResult.Program, position)
 
@@ -72,7 +76,7 @@ func (state *State) handleHover(params HoverParams) *Hover {
 				Value: msg,
 				Kind:  "markdown",
 			},
-			Range: toLspRange(hoverable.Range),
+			Range: toLspRangeIn(doc.Text, hoverable.Range),
 		}
 	case *analysis.BuiltinFnHover:
 		resolved := doc.CheckResult.ResolveBuiltinFn(hoverable.Node.Caller)
@@ -112,7 +116,7 @@ func (state *State) handleHover(params HoverParams) *Hover {
 				Value: msg,
 				Kind:  "markdown",
 			},
-			Range: toLspRange(hoverable.Range),
+			Range: toLspRangeIn(doc.Text, hoverable.Range),
 		}
 
 	default:
@@ -126,14 +130,14 @@ func (state *State) handleGotoDefinition(params DefinitionParams) *Location {
 		return nil
 	}
 
-	position := fromLspPosition(params.Position)
+	position := charactersPosition(doc.Text, fromLspPosition(params.Position))
 	res := analysis.GotoDefinition(doc.CheckResult.Program, position, doc.CheckResult)
 	if res == nil {
 		return nil
 	}
 
 	return &Location{
-		Range: toLspRange(res.Range),
+		Range: toLspRangeIn(doc.Text, res.Range),
 		URI:   params.TextDocument.URI,
 	}
 }
@@ -150,8 +154,8 @@ func (state *State) handleGetSymbols(params DocumentSymbolParams) []DocumentSymb
 			Name:           sym.Name,
 			Detail:         sym.Detail,
 			Kind:           SymbolKind(sym.Kind),
-			Range:          toLspRange(sym.Range),
-			SelectionRange: toLspRange(sym.SelectionRange),
+			Range:          toLspRangeIn(doc.Text, sym.Range),
+			SelectionRange: toLspRangeIn(doc.Text, sym.SelectionRange),
 		})
 	}
 
@@ -238,6 +242,57 @@ func toLspRange(p parser.Range) Range {
 	return Range{
 		Start: toLspPosition(p.Start),
 		End:   toLspPosition(p.End),
+	}
+}
+
+// LSP positions count UTF-16 code units (the protocol's default position encoding),
+// while parser positions count characters: they differ on the lines that hold
+// characters outside of the basic multilingual plane.
+
+func utf16Len(r rune) int {
+	if r >= 0x10000 {
+		return 2
+	}
+	return 1
+}
+
+func lineAt(text string, line int) []rune {
+	lines := strings.Split(text, "\n")
+	if line < 0 || line >= len(lines) {
+		return nil
+	}
+	return []rune(lines[line])
+}
+
+// from a column in UTF-16 code units to a column in characters
+func charactersPosition(text string, p parser.Position) parser.Position {
+	units := 0
+	for index, r := range lineAt(text, p.Line) {
+		units += utf16Len(r)
+		if units > p.Character {
+			return parser.Position{Line: p.Line, Character: index}
+		}
+	}
+	// at or past the end of the line: nothing left to convert
+	return parser.Position{Line: p.Line, Character: p.Character - units + len(lineAt(text, p.Line))}
+}
+
+// from a column in characters to a column in UTF-16 code units
+func utf16Position(text string, p parser.Position) Position {
+	units := 0
+	for index, r := range lineAt(text, p.Line) {
+		if index >= p.Character {
+			break
+		}
+		units += utf16Len(r) - 1
+	}
+	return toLspPosition(parser.Position{Line: p.Line, Character: p.Character + units})
+}
+
+func toLspRangeIn(text string, p parser.Range) Range {
+	return Range{
+		Start: utf16Position(text, p.Start),
+		End:   utf16Position(text, p.End),
 	}
 }
 
